@@ -177,7 +177,9 @@ class IndentationFitter(object):
         # IMPORTANT:
         # If there are new additions in the default values,
         # make sure to take these into account in `FP_DEFAULT`.
-        self.fp = FitProperties(**FP_DEFAULT)
+        # (a copy: the mutable default values, e.g. the `range_x` list,
+        # must not be shared with the curves that are fitted)
+        self.fp = FitProperties(**copy.deepcopy(FP_DEFAULT))
 
         # Get parameters from dataset
         # (sorted, such that `model_key` is set before `params_initial`)
